@@ -1346,7 +1346,11 @@ type RadioTap struct {
 func (m *RadioTap) LayerType() gopacket.LayerType { return LayerTypeRadioTap }
 
 func (m *RadioTap) DecodeFromBytes(data []byte, df gopacket.DecodeFeedback) error {
-	dataLen := uint16(len(data))
+	// the header length is a 16 bit field: no more than 65535 octets of data belong to the header
+	dataLen := uint16(0xffff)
+	if len(data) < 0xffff {
+		dataLen = uint16(len(data))
+	}
 	if dataLen < 8 {
 		df.SetTruncated()
 		return errors.New("RadioTap too small")
@@ -1367,7 +1371,7 @@ func (m *RadioTap) DecodeFromBytes(data []byte, df gopacket.DecodeFeedback) erro
 		// and expects all fields are packed in the first it_present.
 		// Extended bitmap will be just ignored.
 		offset += 4
-		if offset+4 > dataLen {
+		if int(offset)+4 > int(dataLen) {
 			df.SetTruncated()
 			return errors.New("RadioTap present bitmap extends beyond data")
 		}
